@@ -142,6 +142,10 @@ pub fn cmd_sweep(args: &[String]) -> i32 {
         if let Some((content, _, label)) = work.get(wi) {
             let fault = match kind {
                 "trunc" => Some(Fault::Short(sub as usize)),
+                "bytes" => {
+                    // flipping bit 0 of the byte is the closest explicit fault (crash containment only)
+                    Some(Fault::Flip(vec![(sub / 4) * 8]))
+                }
                 "typed" => {
                     if sub >= 900_000 {
                         Some(Fault::Scribble(0, (sub - 900_000) * 7919 + 13))
@@ -235,6 +239,46 @@ pub fn cmd_sweep(args: &[String]) -> i32 {
                 if samples.len() < 3 {
                     let rz = tzif::interpret(&raw);
                     samples.push(format!("{label}: {} transitions, {} types, {} leaps, footer {:?}", rz.transitions.len(), rz.types.len(), rz.leaps.len(), rz.footer.as_ref().map(|f| String::from_utf8_lossy(f).into_owned())));
+                }
+            }
+            "bytes" => {
+                // every single-byte corruption (4 values per position): whatever the library still accepts
+                // must be what the reference decoder reads from the same bytes
+                let mut buf = bytes.clone();
+                let mut accepted = 0u64;
+                for pos in 0..bytes.len() {
+                    let orig = bytes[pos];
+                    for (vi, v) in [orig ^ 0x01, orig ^ 0x80, 0x00, 0xFF].iter().enumerate() {
+                        if *v == orig {
+                            continue;
+                        }
+                        buf[pos] = *v;
+                        crate::crumb::set(wi as u64 * 1_000_000_000 + pos as u64 * 4 + vi as u64);
+                        evaluations += 1;
+                        digests.push(fnv_add(fnv(&bytes[..pos]) ^ (pos as u64).rotate_left(32), &[*v]) ^ fnv(label.as_bytes()));
+                        match decode(&buf) {
+                            Ok(Err(_)) => {}
+                            Ok(Ok(z)) => {
+                                accepted += 1;
+                                let mut fu = false;
+                                if let Err(m) = ref_matches(&z, &buf, &mut fu) {
+                                    if found.iter().filter(|f| f.oracle == "C08.reference_decoder").count() < 3 {
+                                        found.push(Found { oracle: "C08.reference_decoder".into(), sig: "disagrees-with-reference".into(), detail: format!("{label}: byte {pos} set to {v:#04x}: {m}"), scenario: scenario_for(Content::Hex(buf.clone()), None, &prop) });
+                                    }
+                                }
+                            }
+                            Err(p) => {
+                                if found.iter().filter(|f| f.oracle == "C07.panic").count() < 3 {
+                                    found.push(Found { oracle: "C07.panic".into(), sig: "panic".into(), detail: format!("{label}: byte {pos} set to {v:#04x} panicked: {p}"), scenario: scenario_for(Content::Hex(buf.clone()), None, &prop) });
+                                }
+                            }
+                        }
+                    }
+                    buf[pos] = orig;
+                }
+                *counters.entry("single_byte_corruption_accepted".to_string()).or_insert(0) += accepted;
+                if samples.len() < 3 {
+                    samples.push(format!("{label}: {} bytes x 4 replacement values, {accepted} corrupted files still accepted (and equal to the reference decoder's reading)", bytes.len()));
                 }
             }
             "typed" => {
